@@ -540,14 +540,32 @@ def build(cfg, values=None):
                         asm.get_k0_conn()
                     else:
                         getattr(asm, 'calc_' + h)(silent=True)
-                K = getattr(asm, 'calc_' + which)(silent=True).todict()
+                # ... and a re-definition between the earlier calls and the call under test: the result follows the CURRENT definition
+                conn_now = None
+                red = cfg.get('redefine')
+                if red == 'laminate':
+                    base = panels[0]._verif_lam
+                    lam2 = FakeLam()
+                    lam2.ABD = base.ABD * ctx.V('laminate_factor')
+                    lam2.A, lam2.B, lam2.D = lam2.ABD[0:3, 0:3], lam2.ABD[0:3, 3:6], lam2.ABD[3:6, 3:6]
+                    lam2.t = lam2.h = base.t
+                    panels[0]._verif_lam = lam2
+                    panels[0].lam = None                        # as a user does after changing stack / plyts / laminaprops
+                    ctx.lam_for[id(panels[0].stack)] = lam2      # what read_stack returns for this panel from now on
+                elif red == 'interface-line':
+                    conn[0]['ycte1'] = ctx.V('ycte1_new')
+                elif red == 'connection-argument':
+                    conn_now = [dict(conn[0], ycte1=ctx.V('ycte1_new'))] + conn[1:]
+                if conn_now is not None:
+                    K = asm.calc_k0(conn=conn_now, silent=True).todict()
+                else:
+                    K = getattr(asm, 'calc_' + which)(silent=True).todict()
                 tot = 0.
                 for p in panels:
                     tot = tot + getattr(p, 'calc_' + which)(size=size, row0=p.row_start, col0=p.col_start, silent=True, finalize=False)
                 H = finalize_symmetric_matrix(tot)
                 if which == 'k0':
-                    asm.k0_conn = None
-                    H = H + asm.get_k0_conn()
+                    H = H + PanelAssembly(panels, conn_now if conn_now is not None else conn).get_k0_conn()
                 H = H.todict()
                 for k in sorted(set(K) | set(H)):
                     obs.append(('assembly-%s-sum[%d,%d]' % (which, k[0], k[1]), K.get(k, 0), H.get(k, 0)))
@@ -635,8 +653,12 @@ def configs(tier, seed):
     out.append({'variant': 'assembly-sum', 'which': 'k0', 'history': ('k0_conn', 'k0'), 'panels': [(2, 1), (1, 2), (1, 1)], 'm': 2, 'n': 1, 'group': 'assembly-sum:k0-after-k0_conn-k0'})
     out.append({'variant': 'assembly-sum', 'which': 'k0', 'history': ('k0_conn',), 'panel_offsets': True, 'panels': [(1, 4), (1, 2)], 'm': 1, 'n': 1, 'group': 'assembly-sum:k0-after-k0_conn:offset-laminates'})
     out.append({'variant': 'assembly-sum', 'which': 'k0', 'panel_offsets': True, 'panels': [(1, 4), (1, 2)], 'm': 1, 'n': 1, 'group': 'assembly-sum:k0:offset-laminates'})
+    # re-definition of the assembly between two evaluations (the connection matrix is stored on the object)
+    for red in ('laminate', 'interface-line', 'connection-argument'):
+        out.append({'variant': 'assembly-sum', 'which': 'k0', 'history': ('k0',), 'redefine': red, 'panels': [(1, 3), (1, 2)], 'm': 1, 'n': 1,
+                    'group': 'assembly-sum:k0-after-redefinition:%s' % red})
     out[0]['canary'] = True
-    out[-1]['canary'] = True
+    out[-4]['canary'] = True
     return out
 
 
